@@ -1,7 +1,7 @@
 (* C16 -- AddTailMulti, AddHeadMulti, InsertItemsAt, CopyFrom, RemoveAllInstancesOf, Normalize. *)
 From Coq Require Import List Arith ZArith Bool Lia ZifyBool.
 From Muscle Require Import Cont.QueueModel Cont.QueueLemmas Cont.QueueInv Cont.QueueOps1 Cont.QueueEnsure
-  Cont.QueueOps2.
+  Cont.QueueOps2 Cont.QueueRotate Cont.QueueRotateCS.
 Import ListNotations.
 Local Open Scope nat_scope.
 
@@ -277,7 +277,8 @@ Proof.
   assert (Hc : 0 < cnt q) by lia. assert (Hw : tail q < head q) by lia.
   pose proof (inv_cnt _ _ q I) as Hn. pose proof (inv_hd _ _ q I Hc) as Hh.
   pose proof (inv_tail _ _ q I Hc) as Ht.
-  destruct (cnt q * 2 <=? qsize q) eqn:E2; [|apply normalize_rotate; assumption].
+  destruct (cnt q * 2 <=? qsize q) eqn:E2;
+    [|rewrite hsieh_rotate_ok by (unfold qsize in Hh; lia); apply normalize_rotate; assumption].
   cbv zeta.
   assert (Hwrap : head q + cnt q > qsize q) by (unfold intern in Ht; cbv zeta in Ht; difh; lia).
   assert (Htl : tail q = head q + cnt q - 1 - qsize q) by (unfold intern in Ht; cbv zeta in Ht; difh; lia).
